@@ -107,6 +107,10 @@ fn run_case(ctx: &numbat::Context, units: &Units, out: &mut Out, c: &Case) {
             let conv = va * (units.oracle_factor(&a.factors) / units.oracle_factor(&b.factors));
             if va.is_nan() || vb.is_nan() {
                 if kind == "ok" { out.oracle_fail(&key, &text, "assert_eq with a NaN operand succeeded"); }
+            } else if conv.is_infinite() || vb.is_infinite() {
+                // equal infinities are equal; an infinity and anything else are not
+                out.count("judged");
+                if (conv == vb) != (kind == "ok") { out.oracle_fail(&key, &text, &format!("a in b's unit is {:e}, b is {:e}, outcome {}", conv, vb, kind)); }
             } else if show(&a.factors) == show(&b.factors) {
                 out.count("judged");
                 if (va == vb) != (kind == "ok") { out.oracle_fail(&key, &text, &format!("same unit, values {} {}, outcome {}", va, vb, kind)); }
@@ -148,7 +152,7 @@ fn show(f: &[numbat::verif::c03::FactorDesc]) -> String { numbat::verif::c03::sh
 fn main() {
     let args = Args::parse();
     let mut out = Out::new(&args);
-    out.rule = "assert_eq(a,b) and assert_eq(a,b,eps) on pairs of same-dimension prelude units (no prefixes) with b's value derived from a's (equal after conversion, off by one ulp, off by a relative 1e-6..1e-1, far, NaN), eps in a third unit of the dimension sized around |a-b| (x0.5, x0.999999, x1.000001, x2, 0, NaN, negative); assert on comparisons; assert_eq on booleans, strings and lists; each followed by a marker print. distinct = case text; every case is non-trivial".into();
+    out.rule = "assert_eq(a,b) and assert_eq(a,b,eps) on pairs of same-dimension prelude units (no prefixes) with b's value derived from a's (equal after conversion, off by one ulp, off by a relative 1e-6..1e-1, far, NaN, equal and opposite infinities), eps in a third unit of the dimension sized around |a-b| (x0.5, x0.999999, x1.000001, x2, 0, NaN, negative); assert on comparisons; assert_eq on booleans, strings and lists; each followed by a marker print. distinct = case text; every case is non-trivial".into();
     let ctx = prelude_ctx();
     let units = Units::load(&ctx);
     units.emit(&mut out);
@@ -180,7 +184,7 @@ fn main() {
         let rows = &units.by_dim[d];
         let u = |rng: &mut Rng| vec![units.factor(*rng.pick(rows), (false, 0), 1, 1)];
         let (ua, ub, ue) = (u(&mut rng), u(&mut rng), u(&mut rng));
-        let va = match rng.below(12) { 0 => 0.0, 1 => f64::NAN, _ => ((rng.unit_f64() * 2000.0 - 1000.0) * 256.0).round() / 256.0 };
+        let va = match rng.below(14) { 0 => 0.0, 1 => f64::NAN, 2 => f64::INFINITY, 3 => f64::NEG_INFINITY, _ => ((rng.unit_f64() * 2000.0 - 1000.0) * 256.0).round() / 256.0 };
         let a = q(va.to_bits(), ua);
         let conv = ctx.verif_quantity_op("convert", &a, Some(&q(one, ub.clone())));
         let base = parse_answer(&conv).map(|x| x.0).unwrap_or(1.0);
